@@ -3,6 +3,7 @@ package main
 import (
 	"flag"
 	"fmt"
+	"math"
 	"math/rand"
 	"os"
 	"path/filepath"
@@ -27,6 +28,7 @@ func gpkgPipe(args []string) int {
 	nt := fs.Int("targets", 3, "")
 	extra := fs.Int("extra", 2, "attribute columns besides fid")
 	page := fs.Int("p", 7, "")
+	fault := fs.Int("fault", 0, "k > 0: the point table is a VIEW whose k-th row raises an SQLite run-time error while the source is read")
 	fs.Parse(args)
 	rng := rand.New(rand.NewSource(*seed))
 	st := randTable(rng, "polys", *count, gsgpkg.Polygon)
@@ -44,9 +46,64 @@ func gpkgPipe(args []string) int {
 	pts.srs = 28992
 	src := filepath.Join(*dir, "src.gpkg")
 	makeSource(src, []*srcTable{st, pts})
+	if *fault > 0 {
+		// a read fault in the middle of the feature stream: the GeoPackage standard allows a view as feature table; abs() of the
+		// smallest int64 overflows when row k is stepped.  The run must not report success with features missing.
+		h, err := gsgpkg.Open(src)
+		if err != nil {
+			fatal("open source: %v", err)
+		}
+		for _, q := range []string{
+			`CREATE TABLE fbase (fid INTEGER PRIMARY KEY, geom BLOB, val INTEGER)`,
+			`CREATE VIEW fview AS SELECT fid, geom, abs(val) AS val FROM fbase`,
+			`INSERT INTO gpkg_contents(table_name, data_type, identifier, srs_id) VALUES('fview','features','fview',28992)`,
+			`INSERT INTO gpkg_geometry_columns(table_name, column_name, geometry_type_name, srs_id, z, m) VALUES('fview','geom','POINT',28992,0,0)`} {
+			if _, err := h.Exec(q); err != nil {
+				fatal("%s: %v", q, err)
+			}
+		}
+		for i := 1; i <= 2**fault; i++ {
+			sb, _ := gsgpkg.NewBinary(28992, geom.Point{float64(i), float64(i)})
+			val := int64(-i)
+			if i == *fault {
+				val = math.MinInt64
+			}
+			if _, err := h.Exec(`INSERT INTO fbase(fid, geom, val) VALUES(?,?,?)`, i, sb, val); err != nil {
+				fatal("insert: %v", err)
+			}
+		}
+		h.Close()
+	}
 	source := tgpkg.SourceGeopackage{}
 	source.Init(src)
 	tables := source.GetTableInfo()
+	if *fault > 0 {
+		// the real source read through the real pipeline into counting targets (texel's GeoPackage target cannot create a table for
+		// a view): how many features of the faulting table reach every target - if the run returns at all
+		cts := map[tms20.TMID]*countTarget{}
+		pts_ := map[tms20.TMID]processing.Target{}
+		for t := 0; t < *nt; t++ {
+			cts[3+2*t] = &countTarget{}
+			pts_[3+2*t] = cts[3+2*t]
+		}
+		faultRows := []int{}
+		for _, table := range tables {
+			if table.Name != "fview" {
+				continue
+			}
+			source.Table = table
+			processing.ProcessFeatures(source, pts_, func(p geom.Polygon, tmIDs []tms20.TMID) map[tms20.TMID][]geom.Polygon { return nil })
+		}
+		for t := 0; t < *nt; t++ {
+			faultRows = append(faultRows, cts[3+2*t].n)
+		}
+		source.Close()
+		out := newJSONL("-")
+		out.put(map[string]any{"e": "GpkgPipe", "targets": *nt, "extra": *extra, "expected": 0, "rows": []int{}, "wrong_geom": 0, "disorder": 0,
+			"other_expected": 0, "other_rows": []int{}, "fault": *fault, "fault_expected": 2 * *fault, "fault_rows": faultRows})
+		out.close()
+		return 0
+	}
 	targets := map[tms20.TMID]*tgpkg.TargetGeopackage{}
 	ptargets := map[tms20.TMID]processing.Target{}
 	ids := []int{}
@@ -113,7 +170,16 @@ func gpkgPipe(args []string) int {
 	}
 	out := newJSONL("-")
 	out.put(map[string]any{"e": "GpkgPipe", "targets": *nt, "extra": *extra, "expected": *count - len(empties), "rows": rows, "wrong_geom": wrong, "disorder": disorder,
-		"other_expected": *count / 3, "other_rows": otherRows})
+		"other_expected": *count / 3, "other_rows": otherRows, "fault": 0, "fault_expected": 0, "fault_rows": []int{}})
 	out.close()
 	return 0
+}
+
+// countTarget counts the features a pipeline run delivers to it
+type countTarget struct{ n int }
+
+func (t *countTarget) WriteFeatures(in <-chan processing.Feature) {
+	for range in {
+		t.n++
+	}
 }
